@@ -1,3 +1,301 @@
-//! Solver harnesses mounted into rs-matter/src/transport/network/btp/session.rs
-#![allow(unused_imports, dead_code)]
+//! C18 - BTP session harnesses, mounted into rs-matter/src/transport/network/btp/session.rs.
+#![allow(unused_imports, dead_code, static_mut_refs)]
 use super::*;
+use crate::utils::storage::verif_kani_ringbuf::{
+    model_free, model_pop, model_pop_byte, model_push, model_reset,
+};
+use crate::verif_support::*;
+use crate::{vassert, vcover, vok};
+
+const PEER: BtAddr = BtAddr([1, 2, 3, 4, 5, 6]);
+
+/// An established session in an arbitrary window state satisfying the representation
+/// invariant Inv:
+///   recv: level + ack_level == window_size          (slots the peer may still use + slots
+///                                                     we owe an ack for)
+///   send: level <= window_size                       (window_size - level segments outstanding)
+///   window_size >= 1, mtu in [MIN_MTU-3, MAX_MTU-3]
+fn any_established(initiator: bool) -> Session {
+    let mut s = Session::new();
+    s.initiator = initiator;
+    let ws = any_u8();
+    assume(ws >= 1);
+    let mtu = any_u16();
+    assume(mtu >= MIN_MTU - GATT_HEADER_SIZE as u16 && mtu <= MAX_MTU - GATT_HEADER_SIZE as u16);
+    s.setup(PEER, 4, mtu, ws);
+    let rl = any_u8();
+    assume(rl <= ws);
+    s.recv_window.level = rl;
+    s.recv_window.ack_level = ws - rl;
+    s.recv_window.ack_seq = any_u8();
+    s.recv_window.rem_msg_len = any_u16();
+    s.recv_window.buf_messages_ct = any_u8();
+    assume(s.recv_window.buf_messages_ct <= 2);
+    let sl = any_u8();
+    assume(sl <= ws);
+    s.send_window.level = sl;
+    s.send_window.last_sent_seq_num = any_u8();
+    s
+}
+
+fn inv(s: &Session) -> bool {
+    s.recv_window.level as u16 + s.recv_window.ack_level as u16 == s.window_size as u16
+        && s.send_window.level <= s.send_window.window_size
+        && s.send_window.window_size == s.window_size
+}
+
+/// Hostile step: ANY segment of up to 8 bytes thrown at an established session in ANY
+/// Inv-state. `process_rx` returns, never panics/overflows (compiler checks), Inv holds
+/// afterwards; protocol violations are errors.
+#[cfg_attr(kani, kani::proof)]
+#[cfg_attr(kani, kani::unwind(10))]
+#[cfg_attr(kani, kani::stub(RingBuf::push, model_push))]
+#[cfg_attr(kani, kani::stub(RingBuf::free, model_free))]
+#[cfg_attr(kani, kani::stub(embassy_time::Instant::now, crate::verif_support::stub_instant_now))]
+#[cfg_attr(not(kani), test)]
+fn c18_q_hostile_segment_step() {
+    let mut s = any_established(any_bool());
+    let used = any_usize();
+    assume(used <= MAX_MESSAGE_SIZE);
+    #[cfg(kani)]
+    model_reset(used);
+    #[cfg(not(kani))]
+    {
+        // native replay runs the real ring buffer: bring it to the same fill level
+        let z = [0u8; 64];
+        let mut left = used;
+        while left > 0 {
+            let n = core::cmp::min(left, 64);
+            s.recv_window.buf.push(&z[..n]);
+            left -= n;
+        }
+    }
+    vassert!(inv(&s), "ROLE:btp-harness-prestate-satisfies-inv");
+    let pre_rl = s.recv_window.level;
+    let pre_al = s.recv_window.ack_level;
+    let pre_seq = s.recv_window.ack_seq;
+    let pre_sl = s.send_window.level;
+    let pre_last = s.send_window.last_sent_seq_num;
+    let ws = s.window_size;
+
+    let data: [u8; 8] = any_bytes::<8>();
+    let n = any_usize();
+    assume(n <= 8);
+    // data segment (handshake segments are a separate harness)
+    assume(n == 0 || data[0] & 0x40 == 0);
+    let r = s.process_rx(None, PEER, &data[..n]);
+
+    // what the segment says, decoded independently from the flag byte
+    let flags = if n > 0 { data[0] } else { 0 };
+    let has_ack = flags & 0x08 != 0;
+    let has_opcode = flags & 0x20 != 0;
+    let mut idx = 1usize;
+    if has_opcode {
+        idx += 1;
+    }
+    let ack = if has_ack && n > idx { Some(data[idx]) } else { None };
+    if has_ack {
+        idx += 1;
+    }
+    let seq = if n > idx { Some(data[idx]) } else { None };
+
+    match r {
+        Ok(()) => {
+            vcover!(true);
+            vassert!(inv(&s), "ROLE:btp-inv-preserved-on-accept");
+            vassert!(seq == Some(pre_seq.wrapping_add(1)), "ROLE:btp-accepted-segment-has-next-seq");
+            vassert!(pre_rl > 0, "ROLE:btp-accept-only-when-recv-window-has-room");
+            vassert!(s.recv_window.level == pre_rl - 1 && s.recv_window.ack_level == pre_al + 1, "ROLE:btp-accept-consumes-one-slot");
+            if let Some(a) = ack {
+                let outstanding = ws - pre_sl;
+                let unack = pre_last.wrapping_sub(a);
+                vcover!(unack > 0);
+                vassert!(unack <= outstanding, "ROLE:btp-ack-of-never-sent-segment-rejected");
+                vassert!(s.send_window.level == ws - unack, "ROLE:btp-ack-frees-acknowledged-slots");
+            } else {
+                vassert!(s.send_window.level == pre_sl, "ROLE:btp-no-ack-keeps-send-window");
+            }
+        }
+        Err(_) => {
+            vcover!(seq == Some(pre_seq.wrapping_add(1)));
+            vcover!(pre_rl == 0);
+            vassert!(inv(&s), "ROLE:btp-inv-preserved-on-reject");
+        }
+    }
+    if seq.is_some() && seq != Some(pre_seq.wrapping_add(1)) {
+        vassert!(r.is_err(), "ROLE:btp-wrong-sequence-number-rejected");
+    }
+    if pre_rl == 0 {
+        vassert!(r.is_err(), "ROLE:btp-window-overrun-rejected");
+    }
+}
+
+/// Sender side: `prep_tx_data` from any Inv-state. A segment is emitted only if the peer's
+/// window allows it (never the last slot without a piggy-backed ack), Inv holds afterwards,
+/// the pending ack is carried and accounted for.
+#[cfg_attr(kani, kani::proof)]
+#[cfg_attr(kani, kani::unwind(26))]
+#[cfg_attr(kani, kani::stub(embassy_time::Instant::now, crate::verif_support::stub_instant_now))]
+#[cfg_attr(not(kani), test)]
+fn c18_q_sender_step() {
+    let mut s = any_established(any_bool());
+    // bound: the two smallest negotiable segment sizes, messages of up to 24 bytes (1-2 segments)
+    assume(s.mtu <= 21);
+    let pre_sl = s.send_window.level;
+    let pre_rl = s.recv_window.level;
+    let pre_al = s.recv_window.ack_level;
+    let pre_last = s.send_window.last_sent_seq_num;
+    let pending = s.recv_window.pending_ack();
+    let msg: [u8; 24] = any_bytes::<24>();
+    let ml = any_usize();
+    assume(ml <= 24);
+    let mut off = any_usize();
+    assume(off <= ml && (ml > 0 || off == 0));
+    assume(off < ml || ml == 0);
+    let off0 = off;
+    let mut seg = [0u8; 32];
+    let n = vok!(s.prep_tx_data(&msg[..ml], &mut off, &mut seg), "harness-setup-call-succeeds");
+    if pre_sl == 0 || (pre_sl == 1 && pre_al == 0) {
+        vcover!(true);
+        vassert!(n == 0, "ROLE:btp-no-send-when-peer-window-full");
+        vassert!(s.send_window.level == pre_sl && off == off0, "ROLE:btp-no-send-leaves-state");
+    } else {
+        vcover!(true);
+        vassert!(n > 0 && n <= s.mtu as usize, "ROLE:btp-segment-fits-mtu");
+        vassert!(s.send_window.level == pre_sl - 1, "ROLE:btp-send-consumes-one-peer-slot");
+        vassert!(s.send_window.last_sent_seq_num == pre_last.wrapping_add(1), "ROLE:btp-sequence-numbers-consecutive");
+        vassert!(inv(&s), "ROLE:btp-inv-preserved-on-send");
+        // decode what was produced
+        let mut it = seg[..n].iter().copied();
+        let h = vok!(BtpHdr::from(&mut it), "harness-setup-call-succeeds");
+        vassert!(h.get_seq() == Some(pre_last.wrapping_add(1)), "ROLE:btp-sequence-numbers-consecutive");
+        vassert!(h.get_ack() == pending, "ROLE:btp-pending-ack-piggybacked");
+        if pending.is_some() {
+            vassert!(s.recv_window.level == pre_rl + pre_al && s.recv_window.ack_level == 0, "ROLE:btp-ack-reopens-recv-window");
+        } else {
+            vassert!(s.recv_window.level == pre_rl && s.recv_window.ack_level == pre_al, "ROLE:btp-no-ack-keeps-recv-window");
+        }
+        let hl = h.len();
+        let payload = n - hl;
+        vassert!(off == off0 + payload, "ROLE:btp-offset-advances-by-payload");
+        let mut i = 0;
+        while i < payload {
+            vassert!(seg[hl + i] == msg[off0 + i], "ROLE:btp-segment-payload-is-message-slice");
+            i += 1;
+        }
+        if ml > 0 {
+            vassert!(h.is_final() == (off == ml), "ROLE:btp-final-flag-iff-last-segment");
+            vassert!((h.get_msg_len() == Some(ml as u16)) == (off0 == 0), "ROLE:btp-length-only-on-first-segment");
+        }
+    }
+}
+
+/// Acknowledgement deadline: `is_ack_due` <=> an ack is pending AND (the window is (nearly)
+/// closed OR the ack timeout since the last reception has passed).
+#[cfg_attr(kani, kani::proof)]
+#[cfg_attr(kani, kani::unwind(4))]
+#[cfg_attr(not(kani), test)]
+fn c18_q_ack_due_predicate() {
+    let mut s = any_established(false);
+    let recv_at = any_u64();
+    let now = any_u64();
+    let never = any_bool();
+    s.recv_window.received_at = if never { Instant::MAX } else { Instant::from_ticks(recv_at) };
+    let tmo = any_u16();
+    let due = s.is_ack_due(Instant::from_ticks(now), tmo);
+    let pending = s.recv_window.ack_level > 0 && s.recv_window.buf_messages_ct == 0;
+    let ticks = tmo as u64 * embassy_time::TICK_HZ;
+    let at = if never { u64::MAX } else { recv_at };
+    let expired = at.checked_add(ticks).map(|e| e <= now).unwrap_or(false);
+    vassert!(due == (pending && (s.recv_window.level <= 1 || expired)), "ROLE:btp-ack-due-iff-pending-and-(window-closing-or-deadline)");
+    vcover!(due && s.recv_window.level > 1);
+    vcover!(!due && pending);
+}
+
+/// Handshake segments from a hostile peer (responder side): arbitrary <= 10 bytes.
+#[cfg_attr(kani, kani::proof)]
+#[cfg_attr(kani, kani::unwind(12))]
+#[cfg_attr(kani, kani::stub(embassy_time::Instant::now, crate::verif_support::stub_instant_now))]
+#[cfg_attr(not(kani), test)]
+fn c18_q_hostile_handshake_req() {
+    let mut s = Session::new();
+    s.set_relaxed_mtu_nego(any_bool());
+    let data: [u8; 10] = any_bytes::<10>();
+    let n = any_usize();
+    assume(n <= 10);
+    assume(n > 0 && data[0] & 0x40 != 0);
+    // the ATT MTU reported by the local BLE stack is trusted to be a legal one (>= 23)
+    let gatt = if any_bool() { Some(any_u16()) } else { None };
+    assume(gatt.map(|g| g >= MIN_MTU).unwrap_or(true));
+    let r = s.process_rx(gatt, PEER, &data[..n]);
+    if r.is_ok() {
+        vcover!(true);
+        vassert!(s.mtu >= MIN_MTU - GATT_HEADER_SIZE as u16 && s.mtu <= MAX_MTU - GATT_HEADER_SIZE as u16, "ROLE:btp-negotiated-mtu-in-range");
+        vassert!(s.window_size == s.recv_window.level && s.window_size == s.send_window.level, "ROLE:btp-handshake-opens-both-windows");
+        vassert!(inv(&s), "ROLE:btp-inv-established-by-handshake");
+        vassert!(data[0] & 0x64 == 0x64 && data[0] & 0x0a == 0, "ROLE:btp-handshake-flags-checked");
+        // a window of 0 could never carry data
+        vassert!(s.window_size >= 1 || data[8] == 0, "ROLE:btp-window-size-zero-only-if-peer-asked");
+        // the response can be produced and accounted
+        if s.window_size >= 1 {
+            let mut out = [0u8; 16];
+            let l = vok!(s.prep_tx_handshake(gatt, &mut out), "harness-setup-call-succeeds");
+            vassert!(l == 6, "ROLE:btp-handshake-response-length");
+            vassert!(inv(&s), "ROLE:btp-inv-preserved-on-send");
+        }
+    }
+}
+
+/// Two real sessions, abstract FIFO: a message of <= 2 segments (smallest negotiable segment
+/// size, 20) goes A -> B and comes out exactly once, intact; B's acknowledgement reopens A's window.
+#[cfg_attr(kani, kani::proof)]
+#[cfg_attr(kani, kani::unwind(30))]
+#[cfg_attr(kani, kani::stub(RingBuf::push, model_push))]
+#[cfg_attr(kani, kani::stub(RingBuf::pop, model_pop))]
+#[cfg_attr(kani, kani::stub(RingBuf::pop_byte, model_pop_byte))]
+#[cfg_attr(kani, kani::stub(RingBuf::free, model_free))]
+#[cfg_attr(kani, kani::stub(embassy_time::Instant::now, crate::verif_support::stub_instant_now))]
+#[cfg_attr(not(kani), test)]
+fn c18_t_transfer_two_segments() {
+    let mut a = Session::new();
+    let mut b = Session::new();
+    let ws = any_u8();
+    assume(ws >= 2 && ws <= 6);
+    a.setup(PEER, 4, 20, ws);
+    b.setup(BtAddr([6, 5, 4, 3, 2, 1]), 4, 20, ws);
+    // arbitrary (equal on both sides) sequence-number phase, wrap included
+    let ph = any_u8();
+    a.send_window.last_sent_seq_num = ph;
+    b.recv_window.ack_seq = ph;
+    #[cfg(kani)]
+    model_reset(0);
+    let msg: [u8; 24] = any_bytes::<24>();
+    let ml = any_usize();
+    assume(ml >= 1 && ml <= 24);
+    let mut off = 0usize;
+    let mut seg = [0u8; 24];
+    let mut rounds = 0;
+    while off < ml && rounds < 3 {
+        let n = vok!(a.prep_tx_data(&msg[..ml], &mut off, &mut seg), "harness-setup-call-succeeds");
+        vassert!(n > 0 && n <= 20, "ROLE:btp-segment-fits-mtu");
+        vassert!(b.process_rx(None, PEER, &seg[..n]).is_ok(), "ROLE:btp-well-formed-segment-accepted");
+        rounds += 1;
+    }
+    vassert!(off == ml, "ROLE:btp-message-fully-segmented");
+    vassert!(b.message_available(), "ROLE:btp-message-delivered");
+    let mut out = [0u8; 24];
+    let got = vok!(b.fetch_message(&mut out), "harness-setup-call-succeeds");
+    vassert!(got == ml, "ROLE:btp-message-length-intact");
+    let mut i = 0;
+    while i < ml {
+        vassert!(out[i] == msg[i], "ROLE:btp-message-bytes-intact");
+        i += 1;
+    }
+    vassert!(!b.message_available(), "ROLE:btp-message-delivered-exactly-once");
+    // acknowledgement leg: B's (standalone) ack brings A's window back to full
+    let n = vok!(b.prep_tx_data(&[], &mut 0, &mut seg), "harness-setup-call-succeeds");
+    vassert!(n > 0, "ROLE:btp-ack-sent");
+    vassert!(a.process_rx(None, BtAddr([6, 5, 4, 3, 2, 1]), &seg[..n]).is_ok(), "ROLE:btp-well-formed-segment-accepted");
+    vassert!(a.send_window.level == ws, "ROLE:btp-ack-reopens-send-window");
+    vcover!(rounds == 2 && ph == 255);
+}
